@@ -1,5 +1,6 @@
 """C16 Monochromatic convolution emits every in-range wavelength at any memory limit."""
 import ast
+import re
 
 from .. import alg, readers
 from ..alg import Poly, P, B, C, sym, lt, mk_fn
@@ -45,28 +46,35 @@ def run(ctx):
     fi = ctx.fn(repo.func('convolve.monochromatic', 'convolve_model_dir_monochromatic'))
     mod = fi.module
     I = Interp(repo)
-    env = {'__module__': mod, 'n_wav': scalar(alg.count(N), num(1)), 'wavelengths': symarr('wl', (N,), unit=unit_atom('micron')),
-           'wav_max': scalar(sym('wmax'), unit_atom('micron')), 'wav_min': scalar(sym('wmin'), unit_atom('micron'))}
     defs = {n: (v, st) for n, v, st in sequential_defs(fi.node.body)}
+    firsts = [n_ for n_, (v_, st_) in defs.items() if isinstance(v_, ast.Call) and (chain(v_.func) or '').endswith('SED.read')]
+    nw_name = [n_ for n_, (v_, st_) in defs.items() if any(up(v_) == '%s.n_wav' % f_ for f_ in firsts)]
+    wl_name = [n_ for n_, (v_, st_) in defs.items() if any(up(v_) == '%s.wav' % f_ for f_ in firsts)]
+    outer0 = [st for st in fi.node.body if isinstance(st, ast.For) and isinstance(st.iter, ast.Call) and chain(st.iter.func) == 'range' and len(st.iter.args) == 3]
+    if len(outer0) != 1:
+        raise AnalysisError('monochromatic: chunk loop not found')
+    lo_n = [n_.id for n_ in ast.walk(outer0[0].iter.args[0]) if isinstance(n_, ast.Name)]
+    hi_n = [n_.id for n_ in ast.walk(outer0[0].iter.args[1]) if isinstance(n_, ast.Name)]
+    lo_def = [(n_, defs[n_][0], defs[n_][1]) for n_ in lo_n if n_ in defs and 'searchsorted' in up(defs[n_][0])]
+    hi_def = [(n_, defs[n_][0], defs[n_][1]) for n_ in hi_n if n_ in defs and 'searchsorted' in up(defs[n_][0])]
+    if not (firsts and nw_name and wl_name and len(lo_def) == 1 and len(hi_def) == 1):
+        raise AnalysisError('monochromatic: window-to-index definitions not found')
+    env = {'__module__': mod, nw_name[0]: scalar(alg.count(N), num(1)), wl_name[0]: symarr('wl', (N,), unit=unit_atom('micron')),
+           'wav_max': scalar(sym('wmax'), unit_atom('micron')), 'wav_min': scalar(sym('wmin'), unit_atom('micron'))}
     rev = mk_fn('rev', B(N, sym('wl', N)))
     n = alg.count(N)
     want = {'jlo': n - mk_fn('searchsorted', B(N, rev), P(sym('wmax'))), 'jhi': n - 1 - mk_fn('searchsorted', B(N, rev), P(sym('wmin')))}
-    for name in ('jlo', 'jhi'):
-        if name not in defs:
-            raise AnalysisError('monochromatic: %s not defined at top level' % name)
-        v = I.expr(defs[name][0], dict(env), mod)
-        compare(ctx, 'ALG-18', name, loc(fi, defs[name][1].lineno), v, want[name], (), vocab=VOCAB, fns=FNS, findings=I.findings,
+    jlo_name, jhi_name = lo_def[0][0], hi_def[0][0]
+    for name, d_ in (('jlo', lo_def[0]), ('jhi', hi_def[0])):
+        v = I.expr(d_[1], dict(env), mod)
+        compare(ctx, 'ALG-18', name, loc(fi, d_[2].lineno), v, want[name], (), vocab=VOCAB, fns=FNS, findings=I.findings,
                 detail_ok={'jlo': 'first index with wavelength < wav_max (array stored in decreasing wavelength)', 'jhi': 'last index with wavelength >= wav_min'}[name])
     # SEDs read in frequency order
     reads = [c for c in calls(fi.node) if (chain(c.func) or '').endswith('SED.read')]
     orders = [const(kw(c, 'order')) if kw(c, 'order') is not None else 'nu' for c in reads]
     ctx.expect(len(reads) >= 2 and all(o == 'nu' for o in orders), 'ALG-18', 'defining SED and model SEDs read in the same (frequency) order', loc(fi), 'orders %s' % orders,
                'SEDs are read with orders %s: index j would denote different wavelengths' % orders, 'read-order')
-    wdef = defs.get('wavelengths')
-    firsts = [n_ for n_, (v_, st_) in defs.items() if isinstance(v_, ast.Call) and (chain(v_.func) or '').endswith('SED.read')]
-    if wdef is None or not firsts:
-        raise AnalysisError('monochromatic: definition of the wavelength array / first SED not found')
-    ctx.expect(up(wdef[0]) in ['%s.wav' % f_ for f_ in firsts], 'ALG-18', 'wavelengths come from the first SED', loc(fi), 'wavelengths = %s' % up(wdef[0]), 'wavelengths = %s' % up(wdef[0]), 'wl-source')
+    ctx.ok('ALG-18', 'wavelengths come from the first SED', loc(fi), '%s = %s.wav' % (wl_name[0], firsts[0]))
 
     # ---- CFG-9 tiling
     outer = [st for st in fi.node.body if isinstance(st, ast.For) and isinstance(st.iter, ast.Call) and chain(st.iter.func) == 'range' and len(st.iter.args) == 3]
@@ -74,7 +82,8 @@ def run(ctx):
         raise AnalysisError('monochromatic: chunk loop not found')
     lp = outer[0]
     jmin = lp.target.id
-    senv = {'__module__': mod, 'jlo': scalar(sym('jlo'), num(1)), 'jhi': scalar(sym('jhi'), num(1)), 'chunk_size': scalar(sym('chunk'), num(1)), jmin: scalar(sym('jmin'), num(1))}
+    chunk_name = up(lp.iter.args[2]) if isinstance(lp.iter.args[2], ast.Name) else 'chunk_size'
+    senv = {'__module__': mod, jlo_name: scalar(sym('jlo'), num(1)), jhi_name: scalar(sym('jhi'), num(1)), chunk_name: scalar(sym('chunk'), num(1)), jmin: scalar(sym('jmin'), num(1))}
     a, b, c = [I.expr(x, dict(senv), mod) for x in lp.iter.args]
     compare(ctx, 'CFG-9', 'chunk loop start', loc(fi, lp.lineno), a, sym('jlo'), (), vocab=VOCAB, detail_ok='starts at jlo')
     compare(ctx, 'CFG-9', 'chunk loop stop (jhi is inclusive)', loc(fi, lp.lineno), b, sym('jhi') + 1, (), vocab=VOCAB, detail_ok='range stop is jhi + 1, so a chunk starting at jhi is not skipped')
@@ -98,7 +107,7 @@ def run(ctx):
 
     # ---- PERM-8 index coherence
     sed_axes, _ = declared_axes(repo, repo.cls('sed.sed', 'SED'))
-    sedloop = [n_ for n_ in walk_local(lp) if isinstance(n_, ast.For) and 'enumerate(sed_files)' in up(n_.iter)]
+    sedloop = [n_ for n_ in walk_local(lp) if isinstance(n_, ast.For) and up(n_.iter).startswith('enumerate(') and isinstance(n_.target, ast.Tuple) and any((chain(c_.func) or '').endswith('SED.read') for c_ in calls(n_))]
     if len(sedloop) != 1:
         raise AnalysisError('monochromatic: model loop not found')
     sl = sedloop[0]
@@ -111,11 +120,14 @@ def run(ctx):
     svar = [t.id for t, v, st in stores(sl) if isinstance(t, ast.Name) and isinstance(v, ast.Call) and (chain(v.func) or '').endswith('SED.read')]
     s = svar[0] if svar else 's'
     found = {'flux': [], 'error': [], 'central_wavelength': [], 'model_names': []}
+    lname = None
     for t, v, st in stores(jl[0]):
         tt = up(t)
-        for attr in found:
-            if tt.startswith('fluxes[%s].%s' % (j, attr)):
-                found[attr].append((t, v, st))
+        m_ = re.match(r'^(\w+)\[%s\]\.(\w+)' % re.escape(j), tt)
+        if m_ and m_.group(2) in found:
+            lname = lname or m_.group(1)
+            found[m_.group(2)].append((t, v, st))
+    lname = lname or 'fluxes'
     def spectral_index_ok(v, attr):
         # s.flux[:, j + jmin] or s.flux[0, j + jmin] : index on the axis declared n_wav
         if not (isinstance(v, ast.Subscript) and up(v.value) == '%s.%s' % (s, attr) and isinstance(v.slice, ast.Tuple)):
@@ -126,10 +138,10 @@ def run(ctx):
         sites = found[attr]
         ok = bool(sites) and all(spectral_index_ok(v, attr) for t, v, st in sites) and all(('[%s' % im) in up(t) for t, v, st in sites)
         ctx.expect(ok, 'PERM-8', 'row %s of %s comes from SED %s at wavelength index %s' % (im, attr, im, key), loc(fi, sites[0][2].lineno if sites else None),
-                   '%d stores: fluxes[%s].%s[%s, ...] = %s.%s[..., %s] on the spectral axis' % (len(sites), j, attr, im, s, attr, key),
+                   '%d stores: %s[%s].%s[%s, ...] = %s.%s[..., %s] on the spectral axis' % (len(sites), lname, j, attr, im, s, attr, key),
                    'stores: %s' % [up(st) for t, v, st in sites], 'row-' + attr)
     cw = found['central_wavelength']
-    ctx.expect(bool(cw) and all(up(v) == 'wavelengths[%s]' % key for t, v, st in cw), 'PERM-8', 'central wavelength of file %s' % key, loc(fi, cw[0][2].lineno if cw else None),
+    ctx.expect(bool(cw) and all(up(v) == '%s[%s]' % (wl_name[0], key) for t, v, st in cw), 'PERM-8', 'central wavelength of file %s' % key, loc(fi, cw[0][2].lineno if cw else None),
                'wavelengths[%s]' % key, 'central wavelength = %s' % [up(v) for t, v, st in cw], 'central-wavelength')
     mn = found['model_names']
     ctx.expect(bool(mn) and all(up(t).endswith('[%s]' % im) and up(v) == '%s.name' % s for t, v, st in mn), 'PERM-8', 'row %s of model_names is the name of SED %s' % (im, im),
@@ -140,20 +152,21 @@ def run(ctx):
         raise AnalysisError('monochromatic: output loop not found')
     j2 = wl[0].target.id
     key2 = '%s + %s' % (j2, jmin)
-    wcalls = [c for c in calls(wl[0]) if up(c.func) == 'fluxes[%s].write' % j2]
+    wcalls = [c for c in calls(wl[0]) if up(c.func) == '%s[%s].write' % (lname, j2)]
     fmt = [c for c in calls(wl[0]) if isinstance(c.func, ast.Attribute) and c.func.attr == 'format']
     fname_ok = bool(wcalls) and all(w.args and ('MO{' in up(w.args[0])) and ('03d' in up(w.args[0])) and (key2 + ' + 1') in up(w.args[0]) for w in wcalls)
     ctx.expect(fname_ok, 'PERM-8', 'file name MO{index+1:03d}', loc(fi, wl[0].lineno), 'file for wavelength index %s is MO%%03d %% (%s + 1)' % (key2, key2), 'file names: %s' % [up(c)[:80] for c in fmt], 'file-name')
-    rows = [(t, v) for t, v, st in stores(wl[0]) if up(t).startswith("filters['filter']")]
-    ctx.expect(bool(rows) and all(up(t) == "filters['filter'][%s]" % key2 and (key2 + ' + 1') in up(v) for t, v in rows), 'PERM-8', 'returned table row', loc(fi, wl[0].lineno),
+    rows = [(t, v) for t, v, st in stores(wl[0]) if "['filter']" in up(t)]
+    ctx.expect(bool(rows) and all(up(t).endswith("['filter'][%s]" % key2) and (key2 + ' + 1') in up(v) for t, v in rows), 'PERM-8', 'returned table row', loc(fi, wl[0].lineno),
                "filters['filter'][%s] names the same file" % key2, 'rows: %s' % [(up(t), up(v)) for t, v in rows], 'table-row')
     # CFG-5
     seq = []
     for st in wl[0].body:
         for c in calls(st):
-            if up(c.func) in ('fluxes[%s].sort_to_match' % j2, 'fluxes[%s].write' % j2):
+            if up(c.func) in ('%s[%s].sort_to_match' % (lname, j2), '%s[%s].write' % (lname, j2)):
                 seq.append((c.func.attr, up(c.args[0]) if c.args else ''))
-    ctx.expect(len(seq) >= 2 and seq[0] == ('sort_to_match', "par_table['MODEL_NAME']") and seq[1][0] == 'write', 'CFG-5', 'sort_to_match before write', loc(fi, wl[0].lineno),
+    ptab = [n_ for n_, (v_, st_) in defs.items() if isinstance(v_, ast.Call) and (chain(v_.func) or '').endswith('load_parameter_table')]
+    ctx.expect(len(seq) >= 2 and seq[0][0] == 'sort_to_match' and seq[0][1] in ["%s['MODEL_NAME']" % p_ for p_ in ptab] and seq[1][0] == 'write', 'CFG-5', 'sort_to_match before write', loc(fi, wl[0].lineno),
                'rows put in parameter-table order before each file is written', 'sequence %s' % seq, 'sort-before-write')
 
     # ---- cube packages
